@@ -105,10 +105,10 @@ SIXTH = {
  "C06": "R06.2 consumer clause (the deferred list is not replaced), R06.4 no exit between the deferred calls and the test of recovered.",
  "C07": "R07.1 through helpers, R07.19 (= R05.6), R07.20 (= R04.13 on callBin), R07.21 (= R01.34).",
  "C08": "R08.10 (receive status from the receive operation), R08.11 (callbacks write only their own frame; D90), R08.12 (= R05.11; D91), R08.13 (= R04.20; D92).",
- "C09": "R09.8 (= R08.1 on the generators creating frames or host callbacks).",
+ "C09": "R09.8 (= R08.1 on the generators creating frames or host callbacks), R09.9 (goroutines of go statements defer a guard; D110).",
  "C10": "R10.6 (= R06.2 consumer clause: a cancelled frame runs its deferred calls).",
  "C11": "R11.13 (every returned program is compiled by the call), R11.14 (package-level variables of a, b := f() are globals; D107); R11.4 has one named exception (the debugger's closure generation, D94).",
- "C12": "R12.17 (representable dominates convertConst), R12.18, R12.19 (registration after the checking passes), R12.20 (division by constant zero; D105), R12.21 (return arity; D106).",
+ "C12": "R12.17 (representable dominates convertConst), R12.18, R12.19 (registration after the checking passes), R12.20 (division by constant zero; D105), R12.21 (return arity; D106), R12.22 (case expressions checked against the tag; D109).",
  "C13": "R13.5 overrides unconditional on the streams.",
  "C15": "R15.14 (every variable reference is a dependency), R15.15 and R15.5 refined (names declared by a type expression are not references; D108).",
  "C16": "R16.5 examines disjunctions, R16.8 (= R02.14).",
